@@ -191,3 +191,4 @@ def check(ctx):
     shared.interval_list_claim_rules(ctx)
     shared.timer_api_forwarding(ctx)
     shared.timer_handler_rules(ctx)
+    shared.selector_serves_timeout_wakeups(ctx)
